@@ -10,4 +10,5 @@ mkdir -p work evidence replays
 # sudachipy extension + CLI (C19, C06 front-end sinks, C18 Python threads); rebuilt by the checks whenever /repo changes
 (cd /repo && CARGO_TARGET_DIR=/verif/target/py cargo build -p sudachipy -p sudachi-cli --offline 2>&1 | tail -1)
 (cd seam && CARGO_TARGET_DIR=/verif/target/seam cargo build --offline 2>&1 | tail -1)
+python3 tools_shadow.py && (cd shuttle && CARGO_TARGET_DIR=/verif/target/shuttle cargo build --release --offline 2>&1 | tail -1)
 echo "setup done"
